@@ -114,7 +114,14 @@ def judge_table(ctx, case, resp):
         if "table" not in dr:
             return Fail("C03/drawn-table-rejected", "the drawn table is rejected: %r\n%s" % (dr, case["text"]))
         drawn_vals = dr.get("values", [])
+    T0 = T
     for idx, tup in enumerate(case["tuples"]):
+        T = M.resolve_refs(T0, tup)
+        if T is None:
+            ctx.note(key=[T0, tup], nontrivial=False, labels=["unspecified:output-names-a-null-input"] + base_labels)
+            continue
+        if T is not T0:
+            base_labels = [l for l in base_labels if l != "output-names-an-input"] + ["output-names-an-input"]
         ref, info = R.evaluate(T, tup)
         ms = info["matches"]
         default_fires = (not ms) and any(c.get("default") for c in T["outputs"])
